@@ -21,12 +21,17 @@ LEVEL_TEXT = ("History worlds: <= 30 seeded operations from {resize in cells and
               "memoized bodies run at most once per argument tuple until invalidated. "
               "Concurrency worlds: 2-4 tasks make the first call of the same memoized function "
               "under the seeded scheduler (line-level pre-emption on half the runs): the body "
-              "runs at most once per argument tuple and every caller gets the same value. "
+              "runs at most once per argument tuple and every caller gets the same value; in a "
+              "third of the rounds one task calls enable_queries() (after a disabled period) "
+              "while the others make first calls, and after quiescence every getter must equal a "
+              "fresh computation. "
               "Sampling, not proof.")
 LEVEL_NOTE = ("Trusted: FactsModel (documented caching rules), SimTTY's ioctl/XTWINOPS answers, "
               "the kernel's RLock model. AutoCellRatio.is_supported is modelled as sticky once "
-              "determined, as its docstring says. Invalidation racing with a call is outside the "
-              "statement (it speaks of concurrent first calls) and is not generated.")
+              "determined, as its docstring says. Invalidation of the harness memo tables "
+              "racing with a call is outside the statement (it speaks of concurrent first calls) "
+              "and is not generated; enable_queries() racing with first calls is (only the state "
+              "after both have finished is judged).")
 TIERS = {
     "quick": {"runs": 9000, "max_ops": 30},
     "thorough": {"runs": 400000, "max_ops": 30, "wall_cap": 1500},
@@ -38,7 +43,8 @@ RULE = ("history world = seeded terminal profile + <= max_ops operations; concur
 PROBES = ["resize_during_cell_size_query", "toggle_then_get_at_unchanged_size", "resize_then_get", "pixel_only_change",
           "reenable_queries_discards_disabled_results", "dynamic_ratio_follows_resize",
           "fixed_ratio_survives_resize", "memo_body_once", "terminal_size_cached_recomputed",
-          "concurrent_first_calls", "task_waited_on_memo_lock", "auto_ratio_unsupported"]
+          "concurrent_first_calls", "task_waited_on_memo_lock", "auto_ratio_unsupported",
+          "resize_back_to_earlier_size", "enable_queries_races_with_first_call"]
 COMPONENTS = {
     "real": ["term_image.utils.get_cell_size / cached / terminal_size_cached / "
              "get_fg_bg_colors / get_terminal_name_version", "term_image.enable/disable_queries, "
@@ -87,13 +93,14 @@ def run_history(ch, ctx, fault):
         @utils.terminal_size_cached
         def tsc():
             calls["tsc"] += 1
-            return (vt.cols, vt.rows, calls["tsc"])
+            return (vt.cols, vt.rows, tuple(vt.cell_px), calls["tsc"])
 
         memo_expect = {}
         tsc_state = {"size": None, "value": None}
         last_get = {}          # what -> terminal size at the last get
         invalidated_since = {}
         n_ops = ch.int("n_ops", 4, ctx.cfg["max_ops"])
+        visited = [(cols, rows)]       # terminal sizes seen so far (resizes often return to one)
 
         def cell_expect():
             return model.get_cell()
@@ -132,7 +139,16 @@ def run_history(ch, ctx, fault):
             ])
             desc = op
             if op == "resize":
-                c2, r2 = ch.skewed("cols2", 1, 200), ch.skewed("rows2", 1, 60)
+                back = [v for v in visited if v != (vt.cols, vt.rows)]
+                if back and ch.bool("revisit", 0.35):
+                    # back to an earlier size (un-maximise, font zoom and back, ...): whatever
+                    # was computed there the first time is not "fresh" now
+                    c2, r2 = ch.pick("earlier", back)
+                    ctx.probe("resize_back_to_earlier_size")
+                else:
+                    c2, r2 = ch.skewed("cols2", 1, 200), ch.skewed("rows2", 1, 60)
+                if (c2, r2) not in visited:
+                    visited.append((c2, r2))
                 if ch.bool("px_too", 0.5):
                     vt.cell_px = (ch.int("cw2", 1, 30), ch.int("chh2", 1, 40))
                 vt.resize(r2, c2)
@@ -230,6 +246,8 @@ def run_history(ch, ctx, fault):
 
                 def reflow(c2=c2, r2=r2):
                     vt.resize(r2, c2)
+                if (c2, r2) not in visited:
+                    visited.append((c2, r2))
                 k.after(when, reflow, "reflow")
                 utils.get_cell_size()
                 if vt.cols != c2 or vt.rows != r2:      # the call returned before the event
@@ -296,9 +314,9 @@ def run_history(ch, ctx, fault):
                 got = tsc()
                 fresh_needed = tsc_state["size"] != size
                 if fresh_needed:
-                    check(calls["tsc"] == n0 + 1 and got[:2] == size,
+                    check(calls["tsc"] == n0 + 1 and got[:3] == size + (tuple(vt.cell_px),),
                           "terminal_size_cached_value_is_stale",
-                          {"got": got, "size": size}, "tsc")
+                          {"got": got, "size": size, "cell_px": vt.cell_px}, "tsc")
                     tsc_state.update(size=size, value=got)
                     ctx.probe("terminal_size_cached_recomputed")
                 else:
@@ -334,8 +352,9 @@ def run_concurrent(ch, ctx, fault):
     tty.delay_fn = lambda kind: ch.int("delay", 0, 5_000_000)
     tty.ioctl_pixels = ch.bool("ioctl_px", 0.5)
     ntasks = ch.int("ntasks", 2, 4)
+    model = FactsModel(profile, tty.environ, vt, tty)
     with w:
-        utils = w.utils
+        utils, ti = w.utils, w.ti
         calls = {}
         inside = [0]
 
@@ -353,13 +372,30 @@ def run_concurrent(ch, ctx, fault):
         for rnd in range(rounds):
             which = ch.pick("fn", ("memo", "memo", "colors", "namever", "cell"))
             args = [ch.int("arg", 0, 1) for _ in range(ntasks)]
+            # enable_queries() racing with first calls: "re-enabling queries discards results
+            # obtained while they were disabled" - whatever the interleaving, once both have
+            # finished nothing obtained while disabled may be served any more
+            enable_race = which != "memo" and ch.bool("enable_race", 0.35)
+            if enable_race:
+                ti.disable_queries()
+                if ch.bool("call_while_disabled", 0.5):
+                    if which == "colors":
+                        utils.get_fg_bg_colors(hex=bool(args[0]))
+                    elif which == "namever":
+                        utils.get_terminal_name_version()
+                    else:
+                        utils.get_cell_size()
+                ctx.probe("enable_queries_races_with_first_call")
             writes0 = k.counts.get("tty.write", 0)
             got = {}
             k.tasks = []
             k.aborting = False
 
-            def body(j, which=which, args=args, got=got):
-                if which == "memo":
+            def body(j, which=which, args=args, got=got, enable_race=enable_race):
+                if enable_race and j == 0:
+                    ti.enable_queries()
+                    got[j] = "enable_queries()"
+                elif which == "memo":
                     got[j] = memo(args[j])
                 elif which == "colors":
                     got[j] = utils.get_fg_bg_colors(hex=bool(args[j]))
@@ -382,8 +418,37 @@ def run_concurrent(ch, ctx, fault):
             ctx.op("round %d: %d tasks first-call %s%r -> %r (%d queries sent, %d switches)"
                    % (rnd, ntasks, which, args, [got.get(j) for j in range(ntasks)], writes,
                       k.switches))
-            results.append((which, args, writes))
-            if which == "memo":
+            results.append((which, args, writes, enable_race))
+            if enable_race:
+                check(utils._queries_enabled, "queries_not_enabled", {}, "concurrent.enable")
+                if tty.last_reply_at > k.now:
+                    k.advance(tty.last_reply_at - k.now)
+                tty.inq.clear()
+                if which == "colors":
+                    for a in sorted(set(args[1:])):
+                        g = utils.get_fg_bg_colors(hex=bool(a))
+                        fg, bg = model.fresh_colors()
+                        if a:
+                            fg = fg and "#%02x%02x%02x" % fg
+                            bg = bg and "#%02x%02x%02x" % bg
+                        check(g == (fg, bg), "result_obtained_while_queries_disabled_survives",
+                              {"function": "get_fg_bg_colors(hex=%s)" % bool(a), "got": g,
+                               "fresh": (fg, bg), "tasks": [got.get(j) for j in range(ntasks)]},
+                              "concurrent.enable")
+                elif which == "namever":
+                    g = utils.get_terminal_name_version()
+                    check(g == model.fresh_namever(),
+                          "result_obtained_while_queries_disabled_survives",
+                          {"function": "get_terminal_name_version", "got": g,
+                           "fresh": model.fresh_namever()}, "concurrent.enable")
+                else:
+                    g = utils.get_cell_size()
+                    g = g and tuple(g)
+                    check(g == model.fresh_cell(),
+                          "result_obtained_while_queries_disabled_survives",
+                          {"function": "get_cell_size", "got": g, "fresh": model.fresh_cell()},
+                          "concurrent.enable")
+            elif which == "memo":
                 for a in set(args):
                     check(calls.get(a, 0) == 1, "memoized_body_ran_more_than_once",
                           {"arg": a, "count": calls.get(a, 0)}, "concurrent.memo")
